@@ -50,7 +50,7 @@ structure Fields where
 
 inductive Tok where
   | lit (c : Char)
-  | field (name : List Char) (zero : Bool) (width : Nat) (conv : Char)
+  | field (name : List Char) (zero : Bool) (width : Nat) (prec : Option Nat) (conv : Char)
   deriving Repr, DecidableEq
 
 inductive TSt where
@@ -58,6 +58,7 @@ inductive TSt where
   | pct
   | name (acc : List Char)
   | spec (name : List Char) (zero : Bool) (seenDigit : Bool) (width : Nat)
+  | prec (name : List Char) (zero : Bool) (width : Nat) (p : Nat)
 
 /-- tokenizer of the `%`-format string; `none` = outside the modelled subset / a `ValueError` -/
 def parseTemplate : TSt → List Char → Option (List Tok)
@@ -74,9 +75,14 @@ def parseTemplate : TSt → List Char → Option (List Tok)
     if c = ')' then parseTemplate (.spec acc.reverse false false 0) r
     else parseTemplate (.name (c :: acc)) r
   | .spec nm zero seen w, c :: r =>
-    if c = 's' ∨ c = 'd' then (parseTemplate .normal r).map (Tok.field nm zero w c :: ·)
+    if c = 's' ∨ c = 'd' then (parseTemplate .normal r).map (Tok.field nm zero w none c :: ·)
+    else if c = '.' then parseTemplate (.prec nm zero w 0) r
     else if c = '0' ∧ !seen ∧ !zero then parseTemplate (.spec nm true false w) r
     else if c.isDigit then parseTemplate (.spec nm zero true (w * 10 + (c.toNat - 48))) r
+    else none
+  | .prec nm zero w p, c :: r =>
+    if c = 's' ∨ c = 'd' then (parseTemplate .normal r).map (Tok.field nm zero w (some p) c :: ·)
+    else if c.isDigit then parseTemplate (.prec nm zero w (p * 10 + (c.toNat - 48))) r
     else none
 
 def padLeft (c : Char) (w : Nat) (s : List Char) : List Char := List.replicate (w - s.length) c ++ s
@@ -85,7 +91,7 @@ def natChars (n : Nat) : List Char := (toString n).toList
 
 def renderTok (f : Fields) : Tok → Option (List Char)
   | .lit c => some [c]
-  | .field nm zero w conv =>
+  | .field nm zero w prec conv =>
     let str? : Option (List Char) :=
       if nm = "rev".toList then some f.rev else if nm = "slug".toList then some f.slug else none
     let nat? : Option Nat :=
@@ -93,9 +99,15 @@ def renderTok (f : Fields) : Tok → Option (List Char)
       else if nm = "month".toList then some f.month else if nm = "day".toList then some f.day
       else if nm = "hour".toList then some f.hour else if nm = "minute".toList then some f.minute
       else if nm = "second".toList then some f.second else none
+    let asStr (s : List Char) : List Char :=
+      padLeft ' ' w (match prec with | some p => s.take p | none => s)
     match str?, nat? with
-    | some s, _ => if conv = 's' then some (padLeft ' ' w s) else none       -- `%d` of a str: TypeError
-    | none, some n => some (padLeft (if zero ∧ conv = 'd' then '0' else ' ') w (natChars n))
+    | some s, _ => if conv = 's' then some (asStr s) else none               -- `%d` of a str: TypeError
+    | none, some n =>
+      if conv = 's' then some (asStr (natChars n))
+      else
+        let digits := match prec with | some p => padLeft '0' p (natChars n) | none => natChars n
+        some (padLeft (if zero then '0' else ' ') w digits)
     | none, none => none                                                     -- KeyError
 
 def renderToks (f : Fields) : List Tok → Option (List Char)
